@@ -18,11 +18,11 @@ Clause → theorems → what remains outside
     - BoxCox2sym.backward_forward (nu > 0) + backward_forward_nu_zero
     - YeoJohnson.backward_forward_near (all x, sliver included, 1e-18) + backward_forward / _of_side / _of_nonpos / _lam_one (exact)
     - LogSinh.backward_forward
-    - Reciprocal.backward_forward
+    - Reciprocal.backward_forward (every x > -nu; repaired guard y < 0)
     - Sinh.backward_forward
     - Manly.backward_forward
     - Softmax.backward_forward / backwardM_forwardM (rows and 2-D arrays of any size)
-    outside: Reciprocal: only for x + nu < 1/mininu (mininu > 0); outside it the code returns NaN - proved (Reciprocal.backward_forward_nan), known finding. BoxCox2sym with nu = 0 and lam <= 1e-10, or nu < 0: BC(0) does not exist, the transform is undefined (no domain).
+    outside: BoxCox2sym with nu = 0 and lam <= 1e-10, or nu < 0: BC(0) does not exist, the transform is undefined (no domain).
 
 * forward(backward(y)) = y for all y of the image
     - Identity/Logit/Log/BoxCox2/BoxCox1lam/BoxCox1nu/Sinh/Manly/Reciprocal .forward_backward
@@ -31,7 +31,7 @@ Clause → theorems → what remains outside
     - LogSinh.forward_backward + LogSinh.codom_iff + forward_mem_codom
     - Softmax.forward_backward / forwardM_backwardM + Softmax.codom_iff + fwdRow_mem_codom
     - image/domain closure: Logit.backward_mem_dom, BoxCox2.forward_mem_codom / backward_mem_dom, Manly.forward_mem_codom
-    outside: nothing (image sets are explicit predicates: lam*y+1 > 0, 1+lam*y > 0, y < min(0,-mininu), sum exp(y)/(1+sum) <= 1-EPS, b*EPS < b*y + log(1+sqrt(1+exp(-2by))))
+    outside: nothing (image sets are explicit predicates: lam*y+1 > 0, 1+lam*y > 0, y < 0, sum exp(y)/(1+sum) <= 1-EPS, b*EPS < b*y + log(1+sqrt(1+exp(-2by))))
 
 * limiting parameter values where the formula changes branch: exponent 0 of the power family and of Manly, exponents 0 and 2 of Yeo-Johnson, lam either side of the 1e-10 switch, any logarithm base
     - the BoxCox2 / Manly theorems case-split on lamBig (abs(lam) > EPS) and hold on both branches; Manly.lam_zero
@@ -600,55 +600,43 @@ theorem LogSinh.state_set (s : LogSinh.State ℝ) (x xm : ℝ) (h : s.xmax = som
   cases s with
   | mk a b xm' => cases h; exact ⟨rfl, rfl⟩
 
-/-! ### Reciprocal — the backward guard is `y < -mininu`, not `y < 0` -/
+/-! ### Reciprocal (repaired backward guard `y < 0`) -/
 
-/-- exact on `x + nu < 1/mininu` (everywhere when `mininu ≤ 0`) -/
-theorem Reciprocal.backward_forward (p : Reciprocal.Params ℝ) (x : ℝ) (hx : Reciprocal.dom p x)
-    (hm : p.mininu ≤ 0 ∨ x + p.nu < 1 / p.mininu) :
+/-- every `x` of the domain `x > -nu`, every `nu`, every `mininu` -/
+theorem Reciprocal.backward_forward (p : Reciprocal.Params ℝ) (x : ℝ) (hx : Reciprocal.dom p x) :
     (Reciprocal.forward p x).bind (Reciprocal.backward p) = some x := by
   unfold Reciprocal.dom at hx
   have hs : 0 < p.nu + x := by linarith
-  have hg : -1 / (p.nu + x) < -p.mininu := by
-    rw [neg_div, neg_lt_neg_iff]
-    rcases hm with h | h
-    · have : 0 < 1 / (p.nu + x) := by positivity
-      linarith
-    · by_cases h0 : p.mininu ≤ 0
-      · have : 0 < 1 / (p.nu + x) := by positivity
-        linarith
-      · have h0 := not_le.mp h0
-        rw [lt_div_iff₀ hs]
-        rw [lt_div_iff₀ h0] at h
-        nlinarith
+  have hg : -1 / (p.nu + x) < 0 := by
+    rw [neg_div, neg_lt_zero]; positivity
   simp only [Reciprocal.forward, guard, decide_eq_true hx, if_true, Option.bind_some, Reciprocal.backward,
     Reciprocal.fwd, decide_eq_true hg, Reciprocal.bwd]
   congr 1
   field_simp; ring
 
-/-- the excluded region is a genuine failure of the modelled code: for `mininu > 0` and
-`x + nu ≥ 1/mininu` the round trip is NaN (known finding `Reciprocal/roundtrip_x/xnu_ge_inv_mininu`) -/
-theorem Reciprocal.backward_forward_nan (p : Reciprocal.Params ℝ) (x : ℝ) (hm : 0 < p.mininu)
-    (hx : 1 / p.mininu ≤ x + p.nu) (hd : Reciprocal.dom p x) :
-    (Reciprocal.forward p x).bind (Reciprocal.backward p) = none := by
-  unfold Reciprocal.dom at hd
-  have hs : 0 < p.nu + x := by linarith
-  have hg : ¬ (-1 / (p.nu + x) < -p.mininu) := by
-    rw [neg_div, neg_lt_neg_iff, not_lt, div_le_iff₀ hs]
-    rw [div_le_iff₀ hm] at hx
-    nlinarith
-  simp only [Reciprocal.forward, guard, decide_eq_true hd, if_true, Option.bind_some, Reciprocal.backward,
-    Reciprocal.fwd, decide_eq_false hg, Bool.false_eq_true, if_false]
-
-theorem Reciprocal.forward_backward (p : Reciprocal.Params ℝ) (y : ℝ) (hy : y < -p.mininu) (hy0 : y < 0) :
+/-- the image of the domain is exactly `y < 0`: every such `y` is recovered -/
+theorem Reciprocal.forward_backward (p : Reciprocal.Params ℝ) (y : ℝ) (hy0 : y < 0) :
     (Reciprocal.backward p y).bind (Reciprocal.forward p) = some y := by
   have hg : -p.nu < -1 / y - p.nu := by
     have : 0 < -1 / y := by rw [neg_div, neg_pos, one_div, inv_lt_zero]; exact hy0
     linarith
-  simp only [Reciprocal.backward, guard, decide_eq_true hy, if_true, Option.bind_some, Reciprocal.forward,
+  simp only [Reciprocal.backward, guard, decide_eq_true hy0, if_true, Option.bind_some, Reciprocal.forward,
     Reciprocal.bwd, decide_eq_true hg, Reciprocal.fwd]
   congr 1
   have : y ≠ 0 := ne_of_lt hy0
   field_simp; ring
+
+/-- the forward image lies in `y < 0`, and what is outside the image (`y ≥ 0`) stays NaN -/
+theorem Reciprocal.forward_neg (p : Reciprocal.Params ℝ) (x : ℝ) (hx : Reciprocal.dom p x) :
+    Reciprocal.fwd p x < 0 := by
+  unfold Reciprocal.dom at hx
+  have hs : 0 < p.nu + x := by linarith
+  unfold Reciprocal.fwd
+  rw [neg_div, neg_lt_zero]; positivity
+
+theorem Reciprocal.backward_nan_of_nonneg (p : Reciprocal.Params ℝ) (y : ℝ) (hy : 0 ≤ y) :
+    Reciprocal.backward p y = none := by
+  simp only [Reciprocal.backward, guard, decide_eq_false (not_lt.mpr hy), Bool.false_eq_true, if_false]
 
 /-! ### Sinh -/
 
@@ -1169,10 +1157,8 @@ example : LogSinh.admissible (⟨-1, 0, 1⟩ : LogSinh.Params ℝ) := by
 example : LogSinh.dom (⟨0, 0, 1⟩ : LogSinh.Params ℝ) 1 := by
   simp only [LogSinh.dom, LogSinh.inDom, LogSinh.a, LogSinh.b, transc_exp, Real.exp_zero, eps, decide_eq_true_iff]
   norm_num
-example : Reciprocal.dom (⟨0.5, 1e-10⟩ : Reciprocal.Params ℝ) 3 ∧ (3 : ℝ) + 0.5 < 1 / 1e-10 := by
-  simp only [Reciprocal.dom]; norm_num
-/-- the excluded Reciprocal region is inhabited by ordinary data: `mininu = nu = 0.1`, `x = 20` -/
-example : (0 : ℝ) < 0.1 ∧ (1 : ℝ) / 0.1 ≤ 20 + 0.1 ∧ Reciprocal.dom (⟨0.1, 0.1⟩ : Reciprocal.Params ℝ) 20 := by
+/-- large arguments are ordinary members of the domain: `mininu = nu = 0.1`, `x = 20`; default `mininu`, `x = 1e10` -/
+example : Reciprocal.dom (⟨0.1, 0.1⟩ : Reciprocal.Params ℝ) 20 ∧ Reciprocal.dom (⟨1e-10, 1e-10⟩ : Reciprocal.Params ℝ) 1e10 := by
   simp only [Reciprocal.dom]; norm_num
 example : Softmax.dom ([0.2, 0.3] : List ℝ) := by
   refine ⟨?_, ?_⟩
